@@ -53,7 +53,7 @@ def run(tier, work):
     cov["traces_validated_against_impl"] += rb.pop("_traces", 0)
     cov.update(rb)
     rc2 = v.finish()
-    vlib.write_evidence("C19", tier, "other", cov,
+    vlib.write_evidence("C19", tier, "model_checking", cov,
                         ["the shard lock: RBMutex.tla at the grain of its atomic operations, exhaustive for 2 readers, 1 writer (2 thorough), 2 slots, with RLock/TryRLock/Lock/TryLock; the real RBMutex (1, 2, 4 slots; up to 3 readers and 2 writers) is released one hook at a time by a seeded scheduler and every step is compared with the specification; writer preference of sync.RWMutex is not modelled",
                          "a specification observes actions, not loads and stores: the lock-domain table is bound at hook points by lock probes (lockset style); accesses away from hook points are seen only by the race detector run, which is a different technique (dynamic happens-before analysis) and is reported as a supplementary oracle",
                          "the race detector only reports races on executions that occur during the run"],
